@@ -166,7 +166,17 @@ func c04ValidateInputs(leaf *model.Node) []c04Input {
 	case model.KCustom:
 		return []c04Input{{"zero", model.Str(""), false}, {"valid", model.Str("v"), false}}
 	}
-	return []c04Input{{"zero", c04Zero(leaf.Kind), false}, {"valid", c04Valid[leaf.Kind], false}}
+	in := []c04Input{{"zero", c04Zero(leaf.Kind), false}, {"valid", c04Valid[leaf.Kind], false}}
+	switch leaf.Kind {
+	case model.KString:
+		// white-space-only strings are absent in Parse but NOT in Validate (only the Go zero value is)
+		in = append(in, c04Input{"space", model.Str(" "), false}, c04Input{"tabs-newline", model.Str("\t\n "), false}, c04Input{"nbsp", model.Str("\u00a0"), false})
+	case model.KTime:
+		in = append(in, c04Input{"unix-epoch", model.Time(time.Unix(0, 0).UTC()), false}) // not the zero time
+	case model.KFloat32, model.KFloat64:
+		in = append(in, c04Input{"tiny", model.Val{T: leaf.Kind, S: "1e-40"}, false})
+	}
+	return in
 }
 
 // c04Place wraps the leaf and its input in one of the placements.
